@@ -1,8 +1,515 @@
 package bridge
 
+// C20: the query (event) database records every finalized bridge and pool event.
+//
+// For every op list (TLC-enumerated by spec/MC_EventDB.tla, or seeded random) two blocks are processed:
+//   synthetic: the events are built here exactly as burn.go / mint.go emit them;
+//   real:      the burns and mints are executed as real transactions in ONE block on the real chain
+//              state and the block's own event list (block.Events) is taken.
+// Each event list goes through the REAL event-database path: mergeEvents (via EventDb.MergeEvents) and
+// the REAL tag handlers (EventDb.ProcessEvents -> worker -> WorkEvents -> processEvent, the call
+// chain.finalizeBlock makes) on the in-memory sqlite event DB; rows are read back with the package's
+// query functions (GetBurnTickets, GetAuthorizer, GetUser).  sqlite rejects the Postgres `unnest`
+// statements of UpdateBuilder; event.VerifBridgeSqliteShim executes them with the arrays spelled out
+// as rows and reports the handlers' array arguments, which are logged as well (arg_burn / arg_mint).
+
 import (
+	"context"
+	"encoding/json"
+	"fmt"
+	"sort"
+	"strings"
+	"time"
+
+	"0chain.net/chaincore/state"
+	"0chain.net/core/config"
+	"0chain.net/core/encryption"
+	"0chain.net/smartcontract/dbs"
+	"0chain.net/smartcontract/dbs/event"
+	"0chain.net/smartcontract/stakepool/spenum"
+	"github.com/0chain/common/core/currency"
+
 	"verif/harness/common"
 	"verif/harness/rec"
+	"verif/harness/world"
 )
 
-func runEventDB(a common.Args) { rec.Fatal("not yet") }
+type eop struct {
+	Op   string   `json:"op"` // burn | mint
+	C    string   `json:"c"`
+	Eth  string   `json:"eth"`
+	Sigs []string `json:"sigs"` // authorizer names
+}
+
+type burnT struct {
+	C      string `json:"c"`
+	Eth    string `json:"eth"`
+	Amount int64  `json:"amount"`
+	Nonce  int64  `json:"nonce"`
+}
+
+type ticketT struct {
+	Eth    string `json:"eth"`
+	Amount int64  `json:"amount"`
+	Nonce  int64  `json:"nonce"`
+}
+
+type mintT struct {
+	C       string   `json:"c"`
+	Nonce   int64    `json:"nonce"`
+	Amount  int64    `json:"amount"`
+	Signers []string `json:"signers"`
+}
+
+type edrv struct {
+	*drv
+	edb   *event.EventDb
+	stmts []event.VerifBridgeStmt
+	round int64
+}
+
+func runEventDB(a common.Args) {
+	d := newDrv(a)
+	defer d.w.Close()
+	defer d.rc.Close()
+	edb, err := event.NewInMemoryEventDb(config.DbAccess{}, config.DbSettings{AggregatePeriod: 10, PartitionChangePeriod: 1 << 40,
+		PartitionKeepCount: 10, PermanentPartitionChangePeriod: 1 << 40, PermanentPartitionKeepCount: 10, PageLimit: 50})
+	if err != nil {
+		rec.Fatal("bridge: in-memory event db: %v", err)
+	}
+	e := &edrv{drv: d, edb: edb, round: 100}
+	if err := event.VerifBridgeSqliteShim(edb, func(st event.VerifBridgeStmt) { e.stmts = append(e.stmts, st) }); err != nil {
+		rec.Fatal("bridge: sqlite shim: %v", err)
+	}
+	time.Sleep(50 * time.Millisecond) // let the db's worker finish its start-up partition statements
+	id := 0
+	for _, raw := range common.Behaviours(a.Behav) {
+		id++
+		if a.Only != 0 && a.Only != id {
+			d.rc.TraceID = id
+			continue
+		}
+		var ops []eop
+		if err := json.Unmarshal(raw, &ops); err != nil {
+			rec.Fatal("behaviour %d: %v", id, err)
+		}
+		d.r = common.TraceRand(a.Seed, id)
+		e.trace(id, "tlc", ops)
+	}
+	for i := 0; i < a.N; i++ {
+		id++
+		if a.Only != 0 && a.Only != id {
+			d.rc.TraceID = id
+			continue
+		}
+		d.r = common.TraceRand(a.Seed, id)
+		e.trace(id, "random", e.randomOps())
+	}
+}
+
+func (e *edrv) randomOps() []eop {
+	r := e.r
+	clients := []string{"a1", "a2", "c2", "c1"}
+	eths := []string{"e1", "e2", "e3"}
+	sets := [][]string{{"a1", "a2"}, {"a2", "a3"}, {"a1", "a3"}, {"a1", "a2", "a3"}}
+	var ops []eop
+	for n := 1 + r.Intn(8); n > 0; n-- {
+		if r.Intn(3) > 0 {
+			ops = append(ops, eop{Op: "burn", C: clients[r.Intn(len(clients))], Eth: eths[r.Intn(len(eths))]})
+		} else {
+			ops = append(ops, eop{Op: "mint", C: clients[r.Intn(len(clients))], Sigs: sets[r.Intn(len(sets))]})
+		}
+	}
+	return ops
+}
+
+func (e *edrv) trace(id int, kind string, ops []eop) {
+	d := e.drv
+	d.traceID = id
+	d.blkSeq = 0
+	d.w.Now = d.baseNow
+	d.rc.TraceID = id - 1
+	d.rc.Reset(rec.M{"family": "bridge", "kind": kind, "id": id, "seed": d.a.Seed, "ops": ops}, rec.M{"prop": "C20"})
+	// synthetic block
+	evs, burns, mints := e.synthetic(ops)
+	e.block("synthetic", e.syntheticSetup(), evs, burns, mints)
+	// real block: the same ops as real transactions in one block
+	evs, burns, mints = e.real(ops)
+	e.block("real", e.realSetup(), evs, burns, mints)
+}
+
+// ---------------------------------------------------------------- event lists
+
+func (e *edrv) syntheticSetup() []event.Event {
+	var out []event.Event
+	for _, k := range e.auths[:3] {
+		out = append(out, event.Event{Type: event.TypeStats, Tag: event.TagAddAuthorizer, Index: k.ID,
+			Data: &event.Authorizer{Provider: event.Provider{ID: k.ID, DelegateWallet: e.deleg.ID, NumDelegates: 5}, URL: "http://" + k.Name + ".verif"}})
+	}
+	return out
+}
+
+func (e *edrv) realSetup() []event.Event {
+	var out []event.Event
+	for _, ev := range e.baseEvents {
+		if ev.Tag == event.TagAddAuthorizer {
+			out = append(out, ev)
+		}
+	}
+	return out
+}
+
+// synthetic builds the events as Burn (burn.go:100-112) and mint (mint.go:160-170, DistributeRewards) emit them.
+func (e *edrv) synthetic(ops []eop) ([]event.Event, []burnT, []mintT) {
+	var evs []event.Event
+	burns, mints := []burnT{}, []mintT{}
+	nonce := map[string]int64{}
+	mintSeq := int64(0)
+	for i, o := range ops {
+		c := e.key(o.C)
+		txHash := encryption.Hash(fmt.Sprintf("synthetic-txn-%d-%d-%d", e.a.Seed, e.traceID, i))
+		switch o.Op {
+		case "burn":
+			v := e.minBurn + uint64(e.r.Intn(900))
+			eth := e.eths[o.Eth]
+			nonce[eth]++
+			evs = append(evs,
+				event.Event{Type: event.TypeStats, Tag: event.TagAuthorizerBurn, Index: c.ID, TxHash: txHash,
+					Data: state.Burn{Burner: c.ID, Amount: currency.Coin(v)}},
+				event.Event{Type: event.TypeStats, Tag: event.TagAddBurnTicket, Index: eth, TxHash: txHash,
+					Data: &event.BurnTicket{EthereumAddress: eth, Hash: txHash, Amount: currency.Coin(v), Nonce: nonce[eth]}})
+			burns = append(burns, burnT{c.Name, o.Eth, int64(v), nonce[eth]})
+		case "mint":
+			mintSeq++
+			amount := e.minMint + uint64(e.r.Intn(2000))
+			fee := uint64(maxFee / len(o.Sigs))
+			signers := []string{}
+			for _, s := range o.Sigs {
+				signers = append(signers, e.key(s).ID)
+			}
+			payee := e.key(o.Sigs[e.r.Intn(len(o.Sigs))])
+			evs = append(evs,
+				event.Event{Type: event.TypeStats, Tag: event.TagAddBridgeMint, Index: c.ID, TxHash: txHash,
+					Data: &event.BridgeMint{UserID: c.ID, MintNonce: mintSeq, Amount: currency.Coin(amount - fee), Signers: signers}},
+				event.Event{Type: event.TypeStats, Tag: event.TagStakePoolReward, Index: spenum.FeeRewardAuthorizer.String() + payee.ID, TxHash: txHash,
+					Data: &dbs.StakePoolReward{ProviderID: dbs.ProviderID{ID: payee.ID, Type: spenum.Authorizer}, Reward: currency.Coin(fee),
+						RewardType: spenum.FeeRewardAuthorizer, DelegateRewards: map[string]currency.Coin{}, DelegatePenalties: map[string]currency.Coin{},
+						DelegateWallet: e.deleg.ID}})
+			mints = append(mints, mintT{c.Name, mintSeq, int64(amount - fee), append([]string{}, o.Sigs...)})
+		default:
+			rec.Fatal("bridge C20: unknown op %+v", o)
+		}
+	}
+	return evs, burns, mints
+}
+
+// real executes the ops as real transactions in ONE block and returns the block's own events.
+func (e *edrv) real(ops []eop) ([]event.Event, []burnT, []mintT) {
+	d := e.drv
+	w := d.w
+	d.beginBlock(d.base)
+	burns, mints := []burnT{}, []mintT{}
+	mintSeq := int64(0)
+	for _, o := range ops {
+		c := d.key(o.C)
+		switch o.Op {
+		case "burn":
+			v := d.minBurn + uint64(d.r.Intn(900))
+			res := w.Do(d.sc(c, "burn", map[string]interface{}{"ethereum_address": d.eths[o.Eth]}, v))
+			if res.Class != "ok" {
+				rec.Fatal("bridge C20: real burn failed: %s %s", res.Class, res.Err)
+			}
+			burns = append(burns, burnT{c.Name, o.Eth, int64(v), d.snap().BurnNonce[d.eths[o.Eth]]})
+		case "mint":
+			mintSeq++
+			amount := d.minMint + uint64(d.r.Intn(2000))
+			d.ethSeq++
+			ethTxn := "0x" + encryption.Hash(fmt.Sprintf("eth-burn-%d-%d-%d", d.a.Seed, d.traceID, d.ethSeq))
+			msg := toSign(ethTxn, amount, mintSeq, c.ID)
+			sigs := []sigOut{}
+			for _, s := range o.Sigs {
+				k := d.key(s)
+				sigs = append(sigs, sigOut{k.ID, k.Sign(msg)})
+			}
+			pre := w.Balance(c.ID)
+			res := w.Do(d.sc(c, "mint", map[string]interface{}{"ethereum_txn_id": ethTxn, "amount": amount, "nonce": mintSeq,
+				"signatures": sigs, "receiving_client_id": c.ID}, 0))
+			if res.Class != "ok" {
+				rec.Fatal("bridge C20: real mint failed: %s %s", res.Class, res.Err)
+			}
+			mints = append(mints, mintT{c.Name, mintSeq, udiff(w.Balance(c.ID), pre), append([]string{}, o.Sigs...)})
+		default:
+			rec.Fatal("bridge C20: unknown op %+v", o)
+		}
+	}
+	evs := append([]event.Event{}, w.Cur.Events...)
+	w.EndBlock()
+	return evs, burns, mints
+}
+
+// ---------------------------------------------------------------- the event-database path
+
+func bridgeTag(t event.EventTag) bool {
+	return t == event.TagAddBurnTicket || t == event.TagAuthorizerBurn || t == event.TagAddBridgeMint
+}
+
+func (e *edrv) clean() {
+	for _, t := range []string{"burn_tickets", "authorizers", "users", "events", "provider_rewards"} {
+		if err := e.edb.Store.Get().Exec("DELETE FROM " + t).Error; err != nil {
+			rec.Fatal("bridge C20: cleaning table %s: %v", t, err)
+		}
+	}
+}
+
+type projected struct {
+	tickets []ticketT
+	burns   []pair
+	mints   []mintT
+	rewards []pair
+}
+
+// project decodes the bridge / reward events of a list (emitted: one datum per event; merged: slices).
+func (e *edrv) project(evs []event.Event) projected {
+	p := projected{tickets: []ticketT{}, burns: []pair{}, mints: []mintT{}, rewards: []pair{}}
+	name := e.w.Name
+	ethName := func(addr string) string {
+		for n, a := range e.eths {
+			if a == addr {
+				return n
+			}
+		}
+		return "?" + addr
+	}
+	addTicket := func(t event.BurnTicket) {
+		p.tickets = append(p.tickets, ticketT{ethName(t.EthereumAddress), clamp(int64(t.Amount)), clamp(t.Nonce)})
+	}
+	addBurn := func(b state.Burn) { p.burns = append(p.burns, pair{name(b.Burner), clamp(int64(b.Amount))}) }
+	addMint := func(m event.BridgeMint) {
+		s := []string{}
+		for _, id := range m.Signers {
+			s = append(s, name(id))
+		}
+		p.mints = append(p.mints, mintT{name(m.UserID), clamp(m.MintNonce), clamp(int64(m.Amount)), s})
+	}
+	addReward := func(r dbs.StakePoolReward) {
+		t := int64(r.Reward)
+		for _, v := range r.DelegateRewards {
+			t += int64(v)
+		}
+		p.rewards = append(p.rewards, pair{name(r.ID), clamp(t)})
+	}
+	for _, ev := range evs {
+		switch ev.Tag {
+		case event.TagAddBurnTicket:
+			switch x := ev.Data.(type) {
+			case *event.BurnTicket:
+				addTicket(*x)
+			case event.BurnTicket:
+				addTicket(x)
+			case []event.BurnTicket:
+				for _, t := range x {
+					addTicket(t)
+				}
+			default:
+				rec.Fatal("bridge C20: burn ticket event data %T", ev.Data)
+			}
+		case event.TagAuthorizerBurn:
+			switch x := ev.Data.(type) {
+			case *state.Burn:
+				addBurn(*x)
+			case state.Burn:
+				addBurn(x)
+			case []state.Burn:
+				for _, t := range x {
+					addBurn(t)
+				}
+			default:
+				rec.Fatal("bridge C20: burn event data %T", ev.Data)
+			}
+		case event.TagAddBridgeMint:
+			switch x := ev.Data.(type) {
+			case *event.BridgeMint:
+				addMint(*x)
+			case event.BridgeMint:
+				addMint(x)
+			case []event.BridgeMint:
+				for _, t := range x {
+					addMint(t)
+				}
+			default:
+				rec.Fatal("bridge C20: mint event data %T", ev.Data)
+			}
+		case event.TagStakePoolReward:
+			switch x := ev.Data.(type) {
+			case *dbs.StakePoolReward:
+				addReward(*x)
+			case dbs.StakePoolReward:
+				addReward(x)
+			case []dbs.StakePoolReward:
+				for _, t := range x {
+					addReward(t)
+				}
+			default:
+				rec.Fatal("bridge C20: reward event data %T", ev.Data)
+			}
+		}
+	}
+	return p
+}
+
+func sortTickets(t []ticketT) {
+	sort.Slice(t, func(i, j int) bool {
+		if t[i].Eth != t[j].Eth {
+			return t[i].Eth < t[j].Eth
+		}
+		return t[i].Nonce < t[j].Nonce
+	})
+}
+
+func (e *edrv) block(mode string, setup, evs []event.Event, burns []burnT, mints []mintT) {
+	ctx := context.Background()
+	e.clean()
+	// the authorizers table: the add-authorizer events through the same path
+	e.round++
+	be, _, err := e.edb.MergeEvents(setup, e.round, fmt.Sprintf("setup-%d", e.round), 0)
+	if err == nil {
+		_, err = e.edb.WorkEvents(ctx, be)
+	}
+	if err != nil {
+		rec.Fatal("bridge C20: setup block: %v", err)
+	}
+	auths := []string{}
+	for _, k := range e.auths {
+		if _, err := e.edb.GetAuthorizer(k.ID); err == nil {
+			auths = append(auths, k.Name)
+		}
+	}
+	// merge stage on the whole event list of the block
+	e.round++
+	hash := encryption.Hash(fmt.Sprintf("c20-block-%d-%d-%s-%d", e.a.Seed, e.traceID, mode, e.round))
+	emitted := e.project(evs)
+	mergeErr := ""
+	merged := projected{tickets: []ticketT{}, burns: []pair{}, mints: []mintT{}, rewards: []pair{}}
+	if be, _, err := e.edb.MergeEvents(append([]event.Event{}, evs...), e.round, hash, len(burns)+len(mints)); err != nil {
+		mergeErr = err.Error()
+	} else {
+		merged = e.project(be.Events())
+	}
+	// store stage: the bridge events through ProcessEvents (what chain.finalizeBlock calls)
+	var filtered []event.Event
+	for _, ev := range evs {
+		if bridgeTag(ev.Tag) {
+			filtered = append(filtered, ev)
+		}
+	}
+	e.stmts = nil
+	workErr := ""
+	if len(filtered) > 0 {
+		_, n, err := e.edb.ProcessEvents(ctx, filtered, e.round, hash, len(burns)+len(mints),
+			func(event.BlockEvents) error { return nil }, event.CommitNow())
+		if err != nil {
+			workErr = err.Error()
+		} else {
+			e.edb.AddToEventsCounter(uint64(n))
+		}
+	}
+	// read back with the package's query functions
+	rows := []ticketT{}
+	for _, n := range e.ethNames {
+		if n == "" {
+			continue
+		}
+		ts, err := e.edb.GetBurnTickets(e.eths[n])
+		if err != nil {
+			rec.Fatal("bridge C20: GetBurnTickets: %v", err)
+		}
+		for _, t := range ts {
+			rows = append(rows, ticketT{n, clamp(int64(t.Amount)), clamp(t.Nonce)})
+		}
+	}
+	sortTickets(rows)
+	dBurn, dMint := []pair{}, []pair{}
+	for _, k := range e.auths {
+		if a, err := e.edb.GetAuthorizer(k.ID); err == nil {
+			dBurn = append(dBurn, pair{k.Name, clamp(int64(a.TotalBurn))})
+			dMint = append(dMint, pair{k.Name, clamp(int64(a.TotalMint))})
+		}
+	}
+	userNonces := []pair{}
+	for _, n := range []string{"a1", "a2", "c1", "c2"} {
+		if u, err := e.edb.GetUser(e.key(n).ID); err == nil && u != nil {
+			userNonces = append(userNonces, pair{n, clamp(u.MintNonce)})
+		}
+	}
+	// the handlers' array arguments
+	argBurn, argMint := []pair{}, []pair{}
+	translated := true
+	for _, st := range e.stmts {
+		if st.Err != "" && workErr == "" {
+			workErr = "stmt: " + st.Err
+		}
+		translated = translated && st.Translated
+		if len(st.Cols) != 2 || st.Cols[0] != "id" {
+			continue
+		}
+		for _, r := range st.Rows {
+			id, _ := r[0].(string)
+			amt, _ := r[1].(int64)
+			nm := ""
+			if id != "" {
+				nm = e.w.Name(id)
+			}
+			switch st.Cols[1] {
+			case "total_burn":
+				argBurn = append(argBurn, pair{nm, clamp(amt)})
+			case "total_mint":
+				argMint = append(argMint, pair{nm, clamp(amt)})
+			}
+		}
+	}
+	// input classes (known-finding signatures match on these)
+	dupEth, dupBurner, dupAuthBurner, dupMinter := false, false, false, false
+	seenE, seenB, seenM := map[string]bool{}, map[string]bool{}, map[string]bool{}
+	isAuth := map[string]bool{}
+	for _, a := range auths {
+		isAuth[a] = true
+	}
+	for _, b := range burns {
+		if seenE[b.Eth] {
+			dupEth = true
+		}
+		if seenB[b.C] {
+			dupBurner = true
+			if isAuth[b.C] {
+				dupAuthBurner = true
+			}
+		}
+		seenE[b.Eth], seenB[b.C] = true, true
+	}
+	for _, m := range mints {
+		if seenM[m.C] {
+			dupMinter = true
+		}
+		seenM[m.C] = true
+	}
+	if len(workErr) > 120 {
+		workErr = workErr[:120]
+	}
+	shape := fmt.Sprintf("%s/b%d/m%d/%s", mode, len(burns), len(mints),
+		strings.Join([]string{fmt.Sprint(dupEth), fmt.Sprint(dupBurner), fmt.Sprint(dupMinter)}, ","))
+	// one event per aspect (same payload), so that a known-finding signature can name exactly the
+	// aspect it is about: BlockMerge, BlockTickets, BlockBurnTotals, BlockMintTotals
+	for _, aspect := range []string{"BlockMerge", "BlockTickets", "BlockBurnTotals", "BlockMintTotals"} {
+		e.rc.Emit(rec.M{"ev": aspect, "mode": mode, "burns": burns, "mints": mints, "rewards": emitted.rewards,
+			"e_tickets": emitted.tickets, "e_burns": emitted.burns, "e_mints": emitted.mints,
+			"m_tickets": merged.tickets, "m_burns": merged.burns, "m_mints": merged.mints, "m_rewards": merged.rewards,
+			"rows": rows, "d_burn": dBurn, "d_mint": dMint, "auths": auths, "arg_burn": argBurn, "arg_mint": argMint,
+			"user_nonces": userNonces, "merge_err": mergeErr, "work_err": workErr, "shim_translated": translated,
+			"n_burns": len(burns), "n_mints": len(mints), "multi_burn": len(burns) >= 2, "has_mint": len(mints) >= 1,
+			"dup_index": dupEth || dupBurner || dupMinter, "dup_eth": dupEth, "dup_burner": dupBurner,
+			"dup_auth_burner": dupAuthBurner, "dup_minter": dupMinter},
+			shape, len(burns)+len(mints) > 0)
+	}
+}
+
+var _ = world.Contracts
